@@ -61,7 +61,7 @@ def _names(case):
 
 def _describe(case):
     return (
-        f"{case['suffix']} on {case['fs']} fs, out={case['out']}, bak={case['bak']}, try_encodings={case.get('encs')}, "
+        f"{case['suffix']} on {case['fs']} fs, out={case['out']}, bak={case['bak']}, try_encodings={case.get('encs')}, errors={case.get('errors')}, "
         f"data={bytes.fromhex(case['data'])[:120]!r}, script={case['script']!r}"
     )
 
@@ -93,6 +93,10 @@ class Run:
         tried = list(case["encs"]) if case.get("encs") is not None else list(ff.MAIN_ENCODINGS)
         ref = ff.ref_decode(data, tried)
         self.enc = ref[0] if ref else None
+        # a non-default error handler passed through to open() (mutate's keyword arguments): only used when the body
+        # decodes strictly under the first tried encoding, so that detection does not depend on the handler
+        if case.get("errors") and ref and ref[0] == tried[0]:
+            self.kw["errors"] = case["errors"]
         self.ref = ref
         self.entry = None  # picture of the simfile as loaded, taken inside the block
 
@@ -331,7 +335,7 @@ def _spoil(sf, way):
     return True
 
 
-UNENCODABLE = ["first-value", "last-value", "new-key", "chart-field", "chart-notes"]
+UNENCODABLE = ["first-value", "last-value", "new-key", "chart-field", "chart-notes", "chart-extradata", "chart-extradata-in-place"]
 
 
 def _spoil_encoding(sf, place, ch):
@@ -348,6 +352,15 @@ def _spoil_encoding(sf, place, ch):
         c = _ensure_chart(sf)
         nk = "NOTES" if ("NOTES" in c or "NOTES2" not in c) else "NOTES2"
         c[nk] = "0000\n0000\n" + ch + "\n0000"
+    elif place in ("chart-extradata", "chart-extradata-in-place"):
+        SMChart, _ = ff._chart_classes()
+        c = _ensure_chart(sf)
+        if not isinstance(c, SMChart):
+            return False
+        if place == "chart-extradata" or c.extradata is None:
+            c.extradata = list(c.extradata or []) + ["x" + ch]
+        else:
+            c.extradata.append("x" + ch)
     else:
         raise HarnessError(place)
     return True
@@ -542,6 +555,7 @@ def s_case(draw):
         "pre_out": draw(st.booleans()),
         "pre_bak": draw(st.booleans()),
         "bystanders": draw(st.booleans()),
+        "errors": draw(st.sampled_from([None, None, None, None, "strict", "replace", "ignore", "surrogateescape", "backslashreplace", "xmlcharrefreplace"])),
         "encs": encs,
         "data": text.encode(enc).hex(),
         "script": draw(ff.s_script(suffix, max_ops=4, none_values=False)),
